@@ -56,6 +56,42 @@ CLAIMED = {
    text="Generated enums (typed/untyped, strings, integers, numbers, booleans, null, mixtures; inline, via $ref, as array items) are compiled and every member must be accepted, decode to the member and marshal back bare, while neighbours, case/spacing variants and values of other JSON types must be rejected; go/types confirms one typed constant per listed string.",
    note="R1, R2, R3 (null is not a must-reject input where the schema does not name it), R4.",
    design="4 C08"),
+ "C09": dict(
+   technique="property-based testing: absent / null / present / zero-valued documents for defaulted properties against compiled generated code; go/types on the default literals",
+   engine="E-run + E-static",
+   text="Generated programs give properties a default valid for their schema; for each defaulted property documents with the property absent, null, present with another valid value and present with the zero value are decoded and the reflective dump must show the default resp. the document's value; the emitted file must type-check (in this profile only a default literal can break it).",
+   note="R2 for default numbers, R3 (null is sent because the statement names it), R4. Open findings exclude defaults on nullable, format-typed, wrapped-enum, object-typed, untyped and nested-array properties, and null for defaulted properties whose type has its own unmarshaler.",
+   design="4 C09"),
+ "C10": dict(
+   technique="metamorphic property-based testing: ref-factored vs inline program pairs on identical documents; recursive graphs through the real CLI",
+   engine="E-run + E-static + E-cli",
+   text="An inline schema and a variant with 1-4 occurrences factored into same-file definitions, other files or definitions in other files (all directory layouts and reference spellings, .json/.yaml, resolve-extension, two-hop chains) are both compiled; verdicts and re-marshalled values must agree pairwise and with the oracle, and referrers of one definition must share one declared type. Recursive graphs (self, items, '#', mutual, cross-file) are generated through the CLI subprocess and must accept and round-trip documents nested up to 200 deep.",
+   note="References carry no sibling keywords; nullable/defaulted occurrences stay inline; a file whose root is an untyped enum is rejected loudly by the tool and is not generated. Open finding: array definitions are unvalidated (arrays are not factored).",
+   design="4 C10"),
+ "C11": dict(
+   technique="property-based testing: branch-subset documents for allOf/anyOf over object branches against compiled generated code",
+   engine="E-run",
+   text="For compositions of 1-4 object branches (inline or $ref, disjoint or overlapping property sets) a document is constructed for every subset B of branches to satisfy exactly B (verified per branch by the oracle); allOf must accept iff B is everything, anyOf iff B is non-empty, and accepted documents must bind the union of the branches' properties.",
+   note="Branch values keep the JSON type their declaring branch states; strings ASCII. Open findings: same keyword on the same property in two allOf branches is first-wins; anyOf merge mutates an earlier branch's schema (overlaps with different constraints are excluded).",
+   design="4 C11"),
+ "C15": dict(
+   technique="exhaustive limit grid + rapid on PrimitiveTypeFromJSONSchemaType (exact interval oracle); flag-on/flag-off program pairs on boundary documents",
+   engine="E-direct + E-run",
+   text="Part 1 enumerates 13 limit constants x all keyword forms and draws from 36 constants: the chosen type must hold the admitted integer interval, be the narrowest of its signedness, and every probe integer must satisfy 'schema admits x' == 'x in type range and remaining bounds admit x'. Part 2 compiles each integer-heavy schema with and without --min-sized-ints and runs every integer on/next to each bound and type limit: equal verdicts and values, equal to the reference interval.",
+   note="R2 (int64-range documents, float64-exact bounds). Open findings: typed integer enums reject everything under the flag; exclusive bounds at +-2^63 are dropped; []uint8 items are treated as byte strings.",
+   design="4 C15"),
+ "C17": dict(
+   technique="differential property-based testing: the same valid / single-fault document through json.Unmarshal and yaml.Unmarshal (flow and block style) of compiled generated code",
+   engine="E-run",
+   text="Programs generated with --extra-imports decode each valid or single-fault document (exactly one required/bound/length/pattern/string-enum rule) as JSON, as the same text read as YAML, and as a block-style YAML rendering verified with a second YAML parser; verdicts and re-marshalled values (defaults included) must be equal.",
+   note="Type violations are outside the statement's list (yaml.v3 coerces scalars).",
+   design="4 C17"),
+ "C19": dict(
+   technique="property-based testing + hostile corpus: every generated unmarshaler on hostile bytes, mutants and truncations with zero and non-zero prior destinations; reflective before/after dump",
+   engine="E-run",
+   text="Every type with a generated UnmarshalJSON/UnmarshalYAML in full-mix programs is called (json.Unmarshal, direct method, YAML node) on 43 hostile inputs, valid documents, all single-fault mutant families and random truncations, with the destination zero or pre-filled from a valid document; each call runs under recover and a returned error requires the deep dump of the destination to equal the dump taken before the call.",
+   note="Open finding: null input panics for structs with typed additionalProperties (that input is excluded for such types).",
+   design="4 C19"),
 }
 
 def main():
